@@ -371,7 +371,7 @@ func TestC16(t *testing.T) {
 				}
 				return a, b
 			}
-			kind := c.Weighted("event", 5, 4, 2, 2, 3, 3, 2, 2, 3)
+			kind := c.Weighted("event", 5, 4, 2, 2, 3, 3, 2, 2, 3, 3)
 			live := w.live()
 			if kind >= 4 && kind <= 7 && len(live) == 0 {
 				kind = 0
@@ -454,6 +454,25 @@ func TestC16(t *testing.T) {
 				if w.cross {
 					w.closedAfterCross = true
 				}
+			case 9: // three overlapping setups between two routers, directions and schedule generated
+				a, b := pair()
+				w.cross = true
+				var cs []*c16Conn
+				dirs := ""
+				for k := 0; k < 3; k++ {
+					x, y := a, b
+					if c.Bool("triple.reverse") {
+						x, y = b, a
+					}
+					dirs += fmt.Sprintf(" n%d->n%d", x, y)
+					cc := &c16Conn{conn: wire.Dial(w.nodes[x], w.nodes[y]), a: x, b: y}
+					cs = append(cs, cc)
+					w.conns = append(w.conns, cc)
+					time.Sleep(2 * time.Millisecond)
+				}
+				w.log("three overlapping setups:%s (lockstep=%v)", dirs, lockstep)
+				w.drive(cs, lockstep, -1)
+				c.Class("three-overlapping-setups")
 			case 8: // Close called once more on a link object that is closed already
 				se := stale[c.Pick("stale.which", len(stale))]
 				e := se.cc.conn.A
